@@ -303,6 +303,14 @@ def consistent(items):
     return True
 
 
+def mask_expansion(v, truth):
+    """`np.ones(…)` where the single-bool mask is known True / `np.zeros(…)` where it is known False"""
+    if truth is None or not isinstance(v, ast.Call):
+        return False
+    name = v.func.attr if isinstance(v.func, ast.Attribute) else getattr(v.func, 'id', None)
+    return (name == 'ones' and truth is True) or (name == 'zeros' and truth is False)
+
+
 def cache_member_test(n, selfname):
     """`'k' in self._cache_` -> 'k'"""
     if (isinstance(n, ast.Compare) and len(n.ops) == 1 and isinstance(n.ops[0], ast.In)
@@ -594,6 +602,8 @@ class Extractor:
             base = t.value
             if is_self_attr(base, s):
                 if base.attr in ATTRS:
+                    if base.attr in ('_values_', '_mask_') and mode != 'del':
+                        out.append(('mr', 'numpy.store', sid))     # a right-hand side that does not fit is refused
                     out.append(('ev', ('write', ATTRS[base.attr], 'store'), sid))
                 elif base.attr == '__dict__':
                     k = t.slice
@@ -619,6 +629,7 @@ class Extractor:
                 return
             va = view_of_attr(base, s, aliases) if not is_self_attr(base, s) else None
             if va is not None:
+                out.append(('mr', 'numpy.store', sid))
                 out.append(('ev', ('write', va, 'store'), sid))     # a store through a local view of the array
                 return
             # x._values_[...] = ... where x is a deriv alias
@@ -737,7 +748,12 @@ class Extractor:
                 m = mode if is_self_attr(t, s, '_readonly_') else 'rebind'
                 if is_self_attr(t, s) and t.attr in ATTRS and same_content(st.value, s, t.attr):
                     m = 'same'
+                expanded = is_self_attr(t, s, '_mask_') and mask_expansion(st.value, env.get('__mask_truth__'))
+                if expanded:
+                    m = 'same'          # `if self._mask_: self._mask_ = np.ones(shape) else: … np.zeros(shape)`
                 self.target_items(f, t, m, aliases, sid, out)
+                if expanded:
+                    out.append(('ev', ('maskRepChanged',), sid))     # same content, other representation
             return [(out, 'fall')]
         if isinstance(st, ast.AugAssign):
             out = []
@@ -812,14 +828,17 @@ class Extractor:
         # paths — e.g. require_writable raising after require_writable has passed — are pruned in `consistent`)
         rt, rf = ro_facts(test, s, env)
         res = []
+        mt = is_self_attr(test, s, '_mask_')       # `if self._mask_:` (a single bool at that point)
+        env_t = dict(env, __mask_truth__=True) if mt else env
+        env_f = dict(env, __mask_truth__=False) if mt else env
         if v is UNKNOWN or v:
             pre = tout + ([('ev', ('assumeVarr', vt), sid)] if vt is not None else [])
             pre = pre + ([('assume', ('ro', rt), sid)] if rt is not None else [])
-            res += [(pre + i, s2) for i, s2 in self.walk(f, st.body, env, set(aliases), depth)]
+            res += [(pre + i, s2) for i, s2 in self.walk(f, st.body, env_t, set(aliases), depth)]
         if v is UNKNOWN or not v:
             pre = tout + ([('ev', ('assumeVarr', not vt), sid)] if vt is not None else [])
             pre = pre + ([('assume', ('ro', rf), sid)] if rf is not None else [])
-            res += [(pre + i, s2) for i, s2 in self.walk(f, st.orelse, env, set(aliases), depth)]
+            res += [(pre + i, s2) for i, s2 in self.walk(f, st.orelse, env_f, set(aliases), depth)]
         res = dedupe(res)
         if rt is not None or rf is not None:
             stripped = dedupe([([x for x in i if not (x[0] == 'assume' and x[2] == sid)], s2) for i, s2 in res])
